@@ -4,6 +4,8 @@ package slip
 
 import (
 	"fmt"
+	"math"
+	"math/big"
 	"time"
 	"unsafe"
 )
@@ -82,7 +84,7 @@ func SimpleObject(val any) (obj Object) {
 		obj = Fixnum(tv)
 
 	case uint:
-		obj = Fixnum(tv)
+		obj = uintObject(uint64(tv))
 	case uint8:
 		obj = Octet(tv)
 	case uint16:
@@ -90,7 +92,7 @@ func SimpleObject(val any) (obj Object) {
 	case uint32:
 		obj = Fixnum(tv)
 	case uint64:
-		obj = Fixnum(tv)
+		obj = uintObject(tv)
 
 	case float32:
 		obj = SingleFloat(tv)
@@ -134,6 +136,15 @@ func SimpleObject(val any) (obj Object) {
 		obj = String(tv.Error())
 	}
 	return
+}
+
+// uintObject returns a Fixnum when the value fits and a Bignum otherwise so
+// values above the int64 maximum do not wrap to negative numbers.
+func uintObject(u uint64) Object {
+	if u <= math.MaxInt64 {
+		return Fixnum(u)
+	}
+	return (*Bignum)(new(big.Int).SetUint64(u))
 }
 
 // Simplify an Object.
